@@ -130,6 +130,15 @@ def gen_scenario(rng, idx):
     # a host with two interfaces (two sender transports): every broadcast leaves on both
     if rng.random() < 0.15:
         sc["ifaces"] = 2
+    # through the public asyncio wrapper (AsyncZeroconf.async_register_service / ..., closed by `async with`)
+    if rng.random() < 0.3:
+        sc["api"] = "aio"
+    # legacy server=None: set_server_if_missing makes the instance name the host name (at register, update AND unregister: a fresh
+    # copy handed to unregister has no server yet)
+    for sv in sc["svcs"]:
+        if rng.random() < 0.08 and len(sv["text"]) < 100:
+            sv["server_none"] = True
+            sv["server"] = "%s.%s" % (sv["inst"], sv["type"])
     return sc
 
 
@@ -281,7 +290,7 @@ class Tap:
 
         def send(self_, out, addr=None, port=5353, v6_flow_scope=(), transport=None):
             tag = tap.tags.get(id(out)) or tap.ctx.get(id(self_)) or ("ans",)
-            tap.ev.append(("asend", sim.now(), id(self_), tag, addr is not None))
+            tap.ev.append(("asend", sim.now(), id(self_), tag, addr is not None, id(out)))
             return o_send(self_, out, addr, port, v6_flow_scope, transport)
 
         def gen(self_, info, ttl, broadcast_addresses=True):
@@ -291,6 +300,8 @@ class Tap:
             tap.keep.append(out)
             # the fields the object has *now*: a broadcast task reads the object at each of its steps (D27)
             tap.tags[id(out)] = ("bcast", id(info), ttl, broadcast_addresses, c08_fields(info))
+            # which packet object this is: since the D27 repair one unregister call builds one goodbye packet and sends it three times
+            tap.ev.append(("gbgen", sim.now(), id(self_), id(out), id(info), ttl))
             return out
 
         def gall(self_):
@@ -401,6 +412,19 @@ def run_scenario(sc):
         a = make_host(sim, sc.get("ifaces", 1))
         za = a.zc
         await za.async_wait_for_start()
+        # which public API the scenario goes through: `Zeroconf`'s async methods, or the `AsyncZeroconf` wrapper (same method names and
+        # arguments; closed by leaving its `async with` block)
+        api = za
+        if sc.get("api") == "aio":
+            from zeroconf.asyncio import AsyncZeroconf
+
+            api = AsyncZeroconf(zc=za)
+
+        async def close_instance():
+            if sc.get("api") == "aio":
+                await api.__aexit__(None, None, None)
+            else:
+                await vsim.close_host(a)
         infos = []
         first = []  # the handle each service was first registered with (stale once an update went through another object)
 
@@ -409,7 +433,7 @@ def run_scenario(sc):
 
         def build(i):
             s = cur[i]
-            return c09.make_info({"type": s["type"], "inst": s["inst"], "port": s["port"], "text": s["text"], "server": s["server"],
+            return c09.make_info({"type": s["type"], "inst": s["inst"], "port": s["port"], "text": s["text"], "server": None if s.get("server_none") else s["server"],
                                   "host_ttl": s["host_ttl"], "other_ttl": s["other_ttl"], "v4": s["v4"], "v6": s["v6"],
                                   "weight": s.get("weight", 0), "priority": s.get("priority", 0)})
 
@@ -422,7 +446,7 @@ def run_scenario(sc):
                 return first[i] if (first[i] is not infos[i] and not changed[i]) else build(i)
             return infos[i]
         for s in sc["svcs"]:
-            infos.append(c09.make_info({"type": s["type"], "inst": s["inst"], "port": s["port"], "text": s["text"], "server": s["server"],
+            infos.append(c09.make_info({"type": s["type"], "inst": s["inst"], "port": s["port"], "text": s["text"], "server": None if s.get("server_none") else s["server"],
                                         "host_ttl": s["host_ttl"], "other_ttl": s["other_ttl"], "v4": s["v4"], "v6": s["v6"],
                                         "weight": s.get("weight", 0), "priority": s.get("priority", 0)}))
         first.extend(infos)
@@ -441,10 +465,10 @@ def run_scenario(sc):
                     # D6: withdraw as soon as async_register_service returns (or `gap` ms later, between the announcements)
                     ttl = ttl_for(op, infos[op["svc"]])
                     handed.add(id(infos[op["svc"]]))
-                    await za.async_register_service(infos[op["svc"]], ttl=ttl)
+                    await api.async_register_service(infos[op["svc"]], ttl=ttl)
                     if op.get("gap"):
                         await sim.sleep_ms(op["gap"])
-                    await za.async_unregister_service(infos[op["svc"]])
+                    await api.async_unregister_service(infos[op["svc"]])
                     return
                 await sim.sleep_until(T0 + op["at"])
                 if closed[0] and k != "query":
@@ -452,13 +476,13 @@ def run_scenario(sc):
                 if k == "register":
                     ttl = ttl_for(op, infos[op["svc"]])
                     handed.add(id(infos[op["svc"]]))
-                    await za.async_register_service(infos[op["svc"]], ttl=ttl)
+                    await api.async_register_service(infos[op["svc"]], ttl=ttl)
                 elif k == "reregister":
                     # the same object: unregistered, then registered again without awaiting the goodbye task
-                    await za.async_unregister_service(infos[op["svc"]])
+                    await api.async_unregister_service(infos[op["svc"]])
                     if op.get("gap"):
                         await sim.sleep_ms(op["gap"])
-                    await za.async_register_service(infos[op["svc"]], allow_name_change=op.get("allow", True))
+                    await api.async_register_service(infos[op["svc"]], allow_name_change=op.get("allow", True))
                 elif k == "query":
                     nq[0] += 1
                     data = build_query(sc, op, nq[0])
@@ -466,16 +490,17 @@ def run_scenario(sc):
                         await sim.sleep_ms(op["delay"])
                     a.inject(data, "10.0.0.9", 40000 if op["kind"] == "legacy" else 5353)
                 elif k == "unregister":
-                    await za.async_unregister_service(handle(op["svc"], op.get("via", "same")))
+                    await api.async_unregister_service(handle(op["svc"], op.get("via", "same")))
                 elif k == "update":
                     if op.get("refused"):
                         # an update the library must refuse (its records cannot be encoded): nothing of it may stay behind
                         before = dict(cur[op["svc"]])
                         cur[op["svc"]].update(op["change"])
+                        cur[op["svc"]]["server_none"] = False
                         h = build(op["svc"])
                         cur[op["svc"]] = before
                         try:
-                            await za.async_update_service(h)
+                            await api.async_update_service(h)
                             errors.append((op["op"], "refused-update-accepted"))
                         except Exception as ex:  # noqa: BLE001
                             if type(ex).__name__ != "NamePartTooLongException":
@@ -486,13 +511,13 @@ def run_scenario(sc):
                         changed[op["svc"]] = True
                     h = handle(op["svc"], op.get("via", "same"))
                     handed.add(id(h))
-                    await za.async_update_service(h)
+                    await api.async_update_service(h)
                     infos[op["svc"]] = h
                 elif k == "unregister_all":
-                    await za.async_unregister_all_services()
+                    await api.async_unregister_all_services()
                 elif k == "close":
                     closed[0] = True
-                    await vsim.close_host(a)
+                    await close_instance()
             except Exception as ex:  # noqa: BLE001
                 errors.append((op["op"], type(ex).__name__))
 
@@ -509,7 +534,7 @@ def run_scenario(sc):
         obs["ev"] = tap.ev
         if not closed[0]:
             try:
-                await vsim.close_host(a)
+                await close_instance()
             except Exception as ex:  # noqa: BLE001  (a close that raises is judged by the oracle, it must not stop the harness)
                 errors.append(("close", type(ex).__name__))
 
@@ -706,6 +731,39 @@ def oracle(sc, obs, res, case):
     ifaces = sc.get("ifaces", 1)
     close_enter = None  # event index at which the public close call in progress began
     close_idx = [j for j, x in enumerate(ev) if x[0] == "close"]
+    # the close calls as the scenario's ACTIONS: (event index, instant, was anything registered when the call began?) -- from the
+    # oracle's own registry, not from what the implementation then did
+    close_calls = []
+    names = set()
+    for j, x in enumerate(ev):
+        if x[0] in ("reg", "upd"):
+            names.add(x[4]["name"].lower())
+        elif x[0] == "unreg":
+            names.discard(x[4]["name"].lower())
+        elif x[0] == "allgen":
+            names.clear()
+        elif x[0] == "aclose" and x[3] == "enter":
+            close_calls.append((j, x[1], not names))
+
+    close_spans = []
+    for j, x in enumerate(ev):
+        if x[0] == "aclose" and x[3] == "enter":
+            close_spans.append((j, None))
+        elif x[0] == "aclose" and x[3] == "exit" and close_spans:
+            close_spans[-1] = (close_spans[-1][0], j)
+
+    def demanded(i, t):
+        """how many of the three goodbyes of a sequence started at event i, instant t, the known finding `goodbyes-cut-by-close` lets
+        the host drop -- decided from the ACTIONS: the sequence spans t .. t+250; a close call entered at te >= t sets `done` at te when
+        nothing is registered then, else after its own sequence (te+250); goodbyes due before `done` must leave.
+        Returns (minimum number that must be multicast, the close instant or None)."""
+        for (j, te, empty) in close_calls:
+            if j > i:
+                done_at = te if empty else te + 2 * GOODBYE
+                if done_at <= t + 2 * GOODBYE:
+                    return len([k for k in range(3) if t + k * GOODBYE < done_at]), te
+                return 3, None
+        return 3, None
 
     def recs_of(f, with_host):
         """identity tuples of the records of a service: (kind, lower name, type, rdata...)"""
@@ -792,7 +850,24 @@ def oracle(sc, obs, res, case):
             # the goodbye datagrams of this object that follow (each serves one unregister call): the one that fits this call best
             # -- right content, nearest to t, t+125, t+250 -- three times
             gb = []
-            for kth in range(3):
+            # the packet this call built (D27 repair: built at the call, sent three times): its transmissions are this call's goodbyes
+            mine = None
+            for j in range(i + 1, n):
+                x = ev[j]
+                if x[0] == "gbgen" and x[4] == e[3] and x[5] == 0 and x[1] == t and ("gb", x[3]) not in used_gb:
+                    mine = x[3]
+                    used_gb.add(("gb", x[3]))
+                    break
+                if x[0] in ("unreg", "send", "asend") or x[1] != t:
+                    break
+            if mine is not None:
+                for j in range(i + 1, n):
+                    x = ev[j]
+                    if x[0] == "asend" and x[3][0] == "bcast" and len(x) > 5 and x[5] == mine:
+                        per, last = sends_of(j)
+                        used_gb.add(j)
+                        gb.append({"t": x[1], "per": per, "last": last, "j": j, "fields": x[3][4]})
+            for kth in (range(3) if mine is None else []):
                 cands = []
                 for j in range(i + 1, n):
                     x = ev[j]
@@ -817,14 +892,20 @@ def oracle(sc, obs, res, case):
                              "the goodbye task's %s step: that goodbye carries the new name, the unregistered name is not withdrawn"
                              % (f["name"], reused[0]["fields"]["name"], ["first", "second", "third"][gb.index(reused[0])])))
             elif len(sent) < 3:
-                cut = [j for j in close_idx if j > i and (len(gb) < 3 or j < gb[2]["j"])]
-                if cut:
-                    # KNOWN FINDING (C07:goodbyes-cut-by-close): `async_unregister_service` hands the goodbye task to the caller; an
-                    # application that closes the instance without awaiting it cuts the sequence (`done`: nothing is sent any more)
-                    viol.append(("C08:goodbyes-cut-by-close", "%s unregistered at +%d ms, the instance closed at +%d ms before the third goodbye: %d of 3 goodbyes were multicast"
-                                 % (f["name"], t - T0, ev[cut[0]][1] - T0, len(sent))))
+                need, te = demanded(i, t)
+                if any(cj < i and (xj is None or xj > i) for cj, xj in close_spans):
+                    # the unregister was called while a close call was already in progress: the close's own goodbye withdraws what was
+                    # registered when it began; this sequence is not judged
+                    res.count("unregister-during-close")
+                elif len(sent) >= need and need < 3:
+                    # KNOWN FINDING (= C07:goodbyes-cut-by-close), the input class decided from the scenario's actions: an explicit
+                    # `async_unregister_service` whose task is not awaited, and a close call that sets `done` within the 250 ms of its
+                    # sequence (entered < 250 ms later with nothing else registered): the goodbyes due from then on are dropped
+                    viol.append(("C08:goodbyes-cut-by-close", "%s unregistered at +%d ms (task not awaited), close called at +%d ms with %s: %d of 3 goodbyes were multicast (%d were due before done)"
+                                 % (f["name"], t - T0, te - T0, "nothing else registered" if te is not None else "?", len(sent), need)))
                 else:
-                    viol.append(("C08:goodbye-count", "%d goodbyes of %s were multicast after the unregister at +%d ms (at %r)" % (len(sent), f["name"], t - T0, [g["t"] - t for g in sent])))
+                    viol.append(("C08:goodbye-count", "%d of 3 goodbyes of %s were multicast after the unregister at +%d ms (at %r); %d were due before any close could set done"
+                                 % (len(sent), f["name"], t - T0, [g["t"] - t for g in sent], need)))
             if not reused:
                 for g in sent:
                     judge_goodbye(g["per"], want, f["name"], "C08:goodbye")
@@ -838,8 +919,9 @@ def oracle(sc, obs, res, case):
                                                  % (f["name"], r.priority, r.weight, r.port, r.server, f["priority"], f["weight"], f["port"], f["server"])))
                                 if isinstance(r, d.DNSText) and r.name.lower() == f["name"].lower() and r.text.hex() != f["text"]:
                                     viol.append(("C08:goodbye-content:wrong-txt", "goodbye TXT of %s differs from the service's" % f["name"]))
-            if len(sent) == 3:
-                obligations.append({"records": want, "from": sent[2]["last"], "ended": {}, "what": f["name"], "t3": sent[2]["t"], "names": {f["name"].lower()},
+            if sent and (len(sent) == 3 or demanded(i, t)[0] == 3):
+                # "once that sequence has completed": from the last goodbye that was sent (a sequence that a close cut is followed by silence)
+                obligations.append({"records": want, "from": sent[-1]["last"], "ended": {}, "what": f["name"], "t3": sent[-1]["t"], "names": {f["name"].lower()},
                                     "unreg": i, "gb_recs": [r for g in sent for dgs in g["per"].values() for data, _ in dgs for r in all_recs(data)]})
         elif k == "allgen" and e[3]:
             fs = [f for f, _ in reg.values()]
@@ -860,15 +942,15 @@ def oracle(sc, obs, res, case):
                     # the close call's own goodbyes: `_close` must come after them
                     viol.append(("C08:close-goodbyes-not-sent", "the close call at +%d ms generated the goodbye of %s but %d of 3 were multicast (done was set at %r)"
                                  % (t - T0, what, len(sent), [ev[j][1] - T0 for j in close_idx])))
-                elif [j for j in close_idx if j > i]:
-                    viol.append(("C08:goodbyes-cut-by-close", "async_unregister_all_services at +%d ms, the instance closed by another call before its third goodbye: %d of 3 were multicast"
-                                 % (t - T0, len(sent))))
+                elif len(sent) >= demanded(i, t)[0] and demanded(i, t)[0] < 3:
+                    viol.append(("C08:goodbyes-cut-by-close", "async_unregister_all_services at +%d ms, close called at +%d ms (done within the 250 ms of the sequence): %d of 3 were multicast (%d were due before done)"
+                                 % (t - T0, demanded(i, t)[1] - T0, len(sent), demanded(i, t)[0])))
                 else:
-                    viol.append(("C08:goodbye-all-count", "%d goodbyes of %s were multicast" % (len(sent), what)))
+                    viol.append(("C08:goodbye-all-count", "%d of 3 goodbyes of %s were multicast (%d were due before any close could set done)" % (len(sent), what, demanded(i, t)[0])))
             for g in sent:
                 judge_goodbye(g["per"], want, what, "C08:goodbye-all")
-            if len(sent) == 3:
-                obligations.append({"records": want, "from": sent[2]["last"], "ended": {}, "what": "all services", "t3": sent[2]["t"], "names": {f["name"].lower() for f in fs},
+            if sent and (len(sent) == 3 or (not e[5] and demanded(i, t)[0] == 3)):
+                obligations.append({"records": want, "from": sent[-1]["last"], "ended": {}, "what": "all services", "t3": sent[-1]["t"], "names": {f["name"].lower() for f in fs},
                                     "unreg": i, "gb_recs": [r for g in sent for dgs in g["per"].values() for data, _ in dgs for r in all_recs(data)]})
     # pass 2: after the third goodbye none of those records leaves with a non-zero TTL
     for ob in obligations:
@@ -944,6 +1026,9 @@ def evaluate(sc, res, lines, pending):
         res.count("op:" + o["op"])
     if obs["errors"]:
         res.count("loop-errors")
+        # an exception that escapes a background task / timer callback into the loop's handler (a goodbye or announcement task that dies
+        # half-way looks like a short sequence otherwise): never on the unchanged tree
+        res.violate("C08:exception-in-event-loop", "an exception reached the event loop's handler: %s" % obs["errors"][0][:300], case)
     # non-trivial: a withdrawal while something was queued or a task was running
     sig = []
     pend_q = 0
